@@ -2,6 +2,7 @@ package chunkparser
 
 import (
 	"encoding/binary"
+	"fmt"
 	"io"
 )
 
@@ -56,6 +57,11 @@ func (p *MP4ChunkParser) Parse() error {
 		}
 		size := binary.BigEndian.Uint32(p.buf[nextBoxStart : nextBoxStart+4])
 		currBox = string(p.buf[nextBoxStart+4 : nextBoxStart+8])
+		if size < 8 {
+			// size 0 (box extends to end of file) and 1 (64-bit size) are not supported; 2-7 are invalid.
+			// Without this check, a zero size makes the loop spin without reading any more data.
+			return fmt.Errorf("chunkparser: unsupported size %d of box %q", size, currBox)
+		}
 		nextBoxStart += size
 		switch currBox {
 		case "moov":
